@@ -4,7 +4,6 @@ package main
 
 import (
 	"fmt"
-	"runtime"
 	"strings"
 	"sync"
 	"time"
@@ -21,7 +20,7 @@ import (
 // value carries the id of the getter call it came from, so "the parked
 // download served at most maxreads reads" is checked on the data itself.
 func init() {
-	streams = append(streams, stream{"cache-park", true, 16, 200, genCachePark})
+	streams = append(streams, stream{"cache-park", true, 16, 48, genCachePark})
 }
 
 func genCachePark(seed uint64) lib.Case {
@@ -85,14 +84,8 @@ func genCachePark(seed uint64) lib.Case {
 		}(w)
 	}
 	for w := 0; w < waiters && synced; w++ {
-		gid := <-gids[w]
-		t0 := time.Now()
-		for !blockedOnMutex(gid) {
-			if time.Since(t0) > 5*time.Second {
-				synced = false
-				break
-			}
-			runtime.Gosched()
+		if !waitBlocked(<-gids[w], 2*time.Second) {
+			synced = false
 		}
 	}
 	mu.Lock()
